@@ -28,7 +28,7 @@ func init() {
 	Registry["C14"] = &Prop{
 		Plan: func(tier string) Plan {
 			return Plan{Level: "exploration", NCases: c14EnumCases + pick(tier, 24, 3000), Batch: 4, CaseTimeout: 120,
-				Rule: "cases 0-7: ALL interleavings of the steps of 3 candidates (34650) and of 2 candidates (70), each candidate running Get->(Create|Update) twice as client-go's tryAcquireOrRenew issues them (plus all 252 interleavings of 2 candidates running Get,write,write,Get,write, i.e. a rejected write retried without a fresh Get), on memkv through the real resourcelock.Interface, split over 8 cases and checked in lock-step against a register model (Create succeeds iff absent; Update succeeds iff the stored bytes equal what this candidate last read; stored record == last successful write; uncontended Get->Update succeeds). " +
+				Rule: "cases 0-7: ALL interleavings of the steps of 3 candidates (34650) and of 2 candidates (70), each candidate running Get->(Create|Update) twice as client-go's tryAcquireOrRenew issues them (plus all 252 interleavings of 2 candidates running Get,write,write,Get,write, i.e. a rejected write retried without a fresh Get; and all interleavings of 2 x Get,write,Get,release / 2 x Get,write,release / 3 x Get,write,release, where release is client-go's Update naming no holder sent without a fresh Get), on memkv through the real resourcelock.Interface, split over 8 cases and checked in lock-step against a register model (Create succeeds iff absent; Update succeeds iff the stored bytes equal what this candidate last read; stored record == last successful write; uncontended Get->Update succeeds). " +
 					"further cases: PRNG samples of 300 interleavings on Badger / TiKV mock / locks obtained from real backends, and concurrent goroutine stress with commit delays whose recorded history is checked with porcupine against a compare-and-swap register. Every record written carries a unique counter. " +
 					"non-trivial = interleaving in which >=2 candidates wrote from the same observed record (so at least one write had to fail); distinct by interleaving",
 				Assumptions: []string{"lease timing is not modelled: candidates always try to take the lock, which exercises strictly more write attempts than client-go would make",
@@ -118,6 +118,12 @@ func lockStep(kv storage.KvStorage, key []byte, stored *[]byte, cd *candidate, s
 		return fmt.Sprintf("%s:get->%s#%d", cd.id, rec.HolderIdentity, rec.LeaderTransitions), "", false
 	default:
 		rec := cd.record()
+		if step == 'r' {
+			// a release as client-go's release() issues it (ReleaseOnCancel): an Update whose record names no holder,
+			// sent without a fresh Get. It is an update like any other: accepted only on the record last read.
+			rec.HolderIdentity = ""
+			*sawNotFound = false
+		}
 		if *sawNotFound {
 			err := cd.lock.Create(rec)
 			want := *stored == nil
@@ -136,14 +142,21 @@ func lockStep(kv storage.KvStorage, key []byte, stored *[]byte, cd *candidate, s
 		err := cd.lock.Update(rec)
 		want := cd.hasRead && *stored != nil && bytes.Equal(*stored, cd.lastRead)
 		if (err == nil) != want {
+			if step == 'r' {
+				return cd.id + ":release", fmt.Sprintf("%s release Update(#%d, no holder) -> %v; stored record %s, candidate last read %s, so success must be %v", cd.id, rec.LeaderTransitions, err, short(*stored), short(cd.lastRead), want), false
+			}
 			return cd.id + ":update", fmt.Sprintf("%s Update(#%d) -> %v; stored record %s, candidate last read %s, so success must be %v", cd.id, rec.LeaderTransitions, err, short(*stored), short(cd.lastRead), want), false
+		}
+		what := "update"
+		if step == 'r' {
+			what = "release"
 		}
 		if err == nil {
 			raw, _ := kv.Get(context.Background(), key)
 			*stored = raw
-			return fmt.Sprintf("%s:update#%d->ok", cd.id, rec.LeaderTransitions), "", false
+			return fmt.Sprintf("%s:%s#%d->ok", cd.id, what, rec.LeaderTransitions), "", false
 		}
-		return fmt.Sprintf("%s:update#%d->fail", cd.id, rec.LeaderTransitions), "", true
+		return fmt.Sprintf("%s:%s#%d->fail", cd.id, what, rec.LeaderTransitions), "", true
 	}
 }
 
@@ -266,6 +279,26 @@ func runC14Enumerate(c *harness.Case) {
 			return ok
 		})
 	}
+	// programs ending in a release (an Update naming no holder, sent without a fresh Get, as client-go's release()
+	// does when leadership is given up): 2 candidates x "gwgr" (70), 2 x "gwr" (20), 3 x "gwr" (1680)
+	if c.Index == 1 {
+		for _, pr := range []struct {
+			n    int
+			prog string
+		}{{2, "gwgr"}, {2, "gwr"}, {3, "gwr"}} {
+			pr := pr
+			interleavingsLen(pr.n, len(pr.prog), func(order []int) bool {
+				fw, ok := runInterleavingProg(c, eng.KV, order, pr.n, false, "memkv", pr.prog)
+				if fw > 0 {
+					c.AddExecution(fmt.Sprintf("memkv/release-%s/%d/%v", pr.prog, pr.n, order))
+				} else {
+					c.AddExecution("")
+				}
+				c.Stat("memkv_release_program_interleavings", 1)
+				return ok
+			})
+		}
+	}
 	c.Stat("memkv_interleavings_enumerated", c.R.Evals)
 	c.AddSet("engines", "memkv")
 }
@@ -309,7 +342,23 @@ func runC14Sample(c *harness.Case) {
 		}
 		var fw int
 		var ok bool
-		if i%3 == 2 {
+		if i%5 == 4 {
+			// programs ending in a release without a fresh Get
+			prog := []string{"gwr", "gwgr", "gwgwr"}[r.Intn(3)]
+			order = order[:0]
+			rem3 := make([]int, nCand)
+			for j := range rem3 {
+				rem3[j] = len(prog)
+			}
+			for len(order) < len(prog)*nCand {
+				ci := r.Intn(nCand)
+				if rem3[ci] > 0 {
+					rem3[ci]--
+					order = append(order, ci)
+				}
+			}
+			fw, ok = runInterleavingProg(c, eng.KV, order, nCand, via, label, prog)
+		} else if i%3 == 2 {
 			// retry-without-get programs, 5 steps each
 			order = order[:0]
 			rem2 := make([]int, nCand)
@@ -381,7 +430,7 @@ func runC14Concurrent(c *harness.Case) {
 		barriers[i] = make(chan struct{})
 	}
 	var arrived = make([]int32, rounds)
-	okWrites := int64(0)
+	okWrites, releases := int64(0), int64(0)
 	for ci, cd := range cs {
 		wg.Add(1)
 		go func(ci int, cd *candidate) {
@@ -423,6 +472,19 @@ func runC14Concurrent(c *harness.Case) {
 				mu.Unlock()
 				if werr == nil {
 					atomic.AddInt64(&okWrites, 1)
+				}
+				if in.Op == "update" && (i+ci)%4 == 0 {
+					// every 4th round the candidate also gives the lock up without a fresh Get: an update from the
+					// record it last READ (stale if its own write was accepted)
+					rel := cd.record()
+					rel.HolderIdentity = ""
+					t4 := atomic.AddInt64(&stamp, 1)
+					rerr := cd.lock.Update(rel)
+					t5 := atomic.AddInt64(&stamp, 1)
+					mu.Lock()
+					ops = append(ops, porcupine.Operation{ClientId: ci, Input: lockIn{Op: "update", Expect: got, New: fmt.Sprintf("#%d", rel.LeaderTransitions)}, Call: t4, Output: lockOut{OK: rerr == nil}, Return: t5})
+					mu.Unlock()
+					atomic.AddInt64(&releases, 1)
 				}
 			}
 		}(ci, cd)
@@ -473,6 +535,7 @@ func runC14Concurrent(c *harness.Case) {
 	}
 	c.Stat("lock_operations_recorded", int64(len(ops)))
 	c.Stat("successful_lock_writes", okWrites)
+	c.Stat("release_updates_without_fresh_get", releases)
 	c.AddSet("engines", "concurrent-"+kind)
 	fp := ""
 	if okWrites > 1 {
